@@ -62,10 +62,10 @@ per_schedule(const char *kind, const char *lines, void *clo)
 		char sig[VD_SIGLEN];
 
 		vd_beat();
-		vd_sh->evals++;
 		vd_desc("%s | after k=%d pops (stream has %d%s)", flat, k, n < 0 ? 400 : n, n < 0 ? "+" : "");
 		switch (c05_roundtrip(&r, text, lines, k, o->form, attr_diff, &ac)) {
 		case 0:
+			vd_sh->evals++;
 			break;
 		case 1:
 			vd_count("skipped_consumed_beyond_2099", 1);
